@@ -200,7 +200,9 @@ class C09(Prop):
             "columns with nested values, empty update), cached getters called positionally and by keyword, uncached "
             "read paths (get_workflow, get_execution, get_port_from_token, get_workflow_ports/steps), and a caller "
             "mutating rows it was given (top-level and nested set/append/delete). Non-trivial = at least two reads "
-            "and at least one update or mutation. Distinct = distinct canonical JSON.")
+            "and at least one update or mutation. Plus (oracle only, outside the model and the sequential quantifier) "
+            "race cases: 1-3 reads and 1-2 updates of one row run concurrently under a seeded permuting event loop, then a "
+            "read is compared with the uncached database. Distinct = distinct canonical JSON.")
     TRUSTED = ("model: DbCache/Model.v (cache lookup/insert/pop, cachebox key making and post-processing as object "
                "sharing between cached cells and returned rows) is hand-written; SQLite, aiosqlite, cachebox, "
                "json and copy.deepcopy are not verified, only exercised",)
@@ -412,9 +414,18 @@ class C09(Prop):
                 ops.append(op)
         return {"f": "seq", "ops": ops}
 
+    def _race(self, rng):
+        """concurrent reads and updates of one row (outside the property's quantifier, which is sequences): the check
+        is that once all of them have completed a read equals the uncached read"""
+        t = rng.choice(["step", "port", "deployment", "target", "filter"])
+        col = {"step": "name", "port": "name", "deployment": "name", "target": "service", "filter": "name"}[t]
+        return {"f": "race", "t": t, "col": col, "warm": rng.random() < 0.4, "gets": rng.randrange(1, 4),
+                "upds": [f"v{i}" for i in range(rng.randrange(1, 3))], "kw": rng.random() < 0.1,
+                "sched": rng.randrange(1 << 30)}
+
     def gen(self, rng, tier):
         n = {"quick": 160, "thorough": 1500, "extended": 800}[tier]
-        return [self._seq(rng, tier) for _ in range(n)]
+        return [self._seq(rng, tier) for _ in range(n)] + [self._race(rng) for _ in range(n // 4)]
 
     # ---------------------------------------------------------------- implementation
     def impl_init(self):
@@ -514,8 +525,77 @@ class C09(Prop):
             if ref is not None:
                 await ref.close()
 
+    def _permuting_loop(self, seed):
+        import random as _random
+
+        rng = _random.Random(seed)
+        asyncio = self.asyncio
+
+        class PermutingLoop(asyncio.SelectorEventLoop):
+            def _run_once(self):
+                if len(self._ready) > 1:
+                    items = list(self._ready)
+                    rng.shuffle(items)
+                    self._ready.clear()
+                    self._ready.extend(items)
+                super()._run_once()
+
+        return PermutingLoop()
+
+    async def _run_race(self, case, path):
+        ctx = self.types.SimpleNamespace(config={"path": path + ".yml"})
+        db = self.SqliteDatabase(ctx, connection=path)
+        ref = None
+        t = case["t"]
+        try:
+            await self._add_real(db, "workflow", {"name": "w", "params": {}, "status": 0, "type": TYPES["workflow"][0]})
+            await self._add_real(db, "deployment", {"name": "d", "type": "local", "config": {}, "external": False, "lazy": True,
+                                                    "scheduling_policy": {}, "workdir": None, "wraps": None})
+            adds = {"step": {"name": "v", "workflow_id": 1, "status": 0, "type": TYPES["step"][0], "params": {}},
+                    "port": {"name": "v", "workflow_id": 1, "type": TYPES["port"][0], "params": {}},
+                    "target": {"deployment": 1, "type": TYPES["target"][0], "params": {}, "locations": 1, "service": "v",
+                               "workdir": None},
+                    "filter": {"name": "v", "type": "shuffle", "config": {}}}
+            rid = 1 if t == "deployment" else await self._add_real(db, t, adds[t])
+            getter = getattr(db, "get_" + t)
+            read = (lambda: getter(**{ARGNAME[t]: rid})) if case["kw"] else (lambda: getter(rid))
+            if case["warm"]:
+                await read()
+            answers = []
+
+            async def one_get():
+                answers.append((await read())[case["col"]])
+
+            async def one_upd(v):
+                await getattr(db, "update_" + t)(rid, {case["col"]: v})
+
+            tasks = [one_get() for _ in range(case["gets"])] + [one_upd(v) for v in case["upds"]]
+            await self.asyncio.gather(*tasks)
+            async with db.connection as c:
+                await c.commit()
+            ref = self.SqliteDatabase(ctx, connection=path)
+            want = (await getattr(ref, "get_" + t)(rid))[case["col"]]
+            got = (await read())[case["col"]]
+            return {"concurrent": answers, "final": got, "uncached": want}
+        finally:
+            await db.close()
+            if ref is not None:
+                await ref.close()
+
     def impl_run(self, case):
         self.k += 1
+        if case["f"] == "race":
+            path = self.os.path.join(self.dir, f"r{self.k}.db")
+            loop = self._permuting_loop(case["sched"])
+            try:
+                return loop.run_until_complete(self._run_race(case, path))
+            finally:
+                loop.close()
+                for suf in ("", "-wal", "-shm"):
+                    try:
+                        self.os.remove(path + suf)
+                    except OSError:
+                        pass
         path = self.os.path.join(self.dir, f"c{self.k}.db")
         try:
             return self.loop.run_until_complete(self._run(case, path))
@@ -540,6 +620,12 @@ class C09(Prop):
     def oracle(self, case, obs):
         if "crash" in obs or "hang" in obs:
             return ("crash", f"implementation crashed/hung: {str(obs)[:300]}")
+        if case["f"] == "race":
+            if obs["final"] != obs["uncached"]:
+                return ("stale-after-concurrent-update",
+                        f"after concurrent get/update of {case['t']} completed, a read returns {obs['final']!r} but the "
+                        f"uncached database holds {obs['uncached']!r} (concurrent reads saw {obs['concurrent']})")
+            return None
         i = self._first_bad(obs)
         if i is not None:
             op, o = case["ops"][i], obs["outs"][i]
@@ -549,6 +635,8 @@ class C09(Prop):
         return None
 
     def signature(self, case, obs, clause):
+        if clause == "stale-after-concurrent-update":
+            return f"{clause}/{'keyword' if case.get('kw') else 'positional'}{'/warm' if case.get('warm') else '/cold'}"
         if clause != "read-differs-from-uncached":
             return clause
         i = self._first_bad(obs)
@@ -578,8 +666,8 @@ class C09(Prop):
 
     # ---------------------------------------------------------------- model side
     def coq_case(self, case, obs):
-        if "crash" in obs or "hang" in obs or "outs" not in obs:
-            return None
+        if case["f"] == "race" or "crash" in obs or "hang" in obs or "outs" not in obs:
+            return None      # concurrent histories are outside the model (and the property): oracle only
         ops, outs = [], []
         for op, o in zip(case["ops"], obs["outs"]):
             k = op["o"]
@@ -617,10 +705,18 @@ class C09(Prop):
         return f"CSeq {coq_list(ops)} {coq_list(outs)} {coq_list(final)}"
 
     def nontrivial(self, case):
+        if case["f"] == "race":
+            return True
         ops = case["ops"]
         return sum(o["o"] in ("get", "fresh") for o in ops) >= 2 and any(o["o"] in ("upd", "mut") for o in ops)
 
     def shrink(self, case):
+        if case["f"] == "race":
+            if case["gets"] > 1:
+                yield {**case, "gets": case["gets"] - 1}
+            if len(case["upds"]) > 1:
+                yield {**case, "upds": case["upds"][:-1]}
+            return
         ops = case["ops"]
         n = len(ops)
         seen = 0
@@ -648,7 +744,8 @@ C09.LEVEL_TEXT = (
     "every returned row; the oracle compares every read with a second, uncached database object on the same file.")
 C09.LEVEL_NOTE = (
     "Partial: reads that pass the id by keyword are excluded from the coherence theorem (refuted, listed as a known "
-    "finding); concurrent get/update interleavings are outside the sequences quantified over. Trusted: Coq kernel + "
+    "finding); concurrent get/update interleavings are outside the sequences quantified over and outside the model -- "
+    "they are exercised (race cases) and a cold-cache get racing an update does leave a stale entry (known finding). Trusted: Coq kernel + "
     "vm_compute; the hand-written model DbCache/Model.v; SQLite/aiosqlite/cachebox/json/deepcopy. No axioms.")
 
 PROP = C09()
